@@ -84,11 +84,16 @@ CLAIMED = {
         note="drives TombstoneLog directly (hook H1); suppression of entries by tombstones during recovery is covered "
              "with the recovery model (C04) when built."),
     "C17": dict(
-        text="Theorem: for an arbitrary hash function, a lookup returns only a record whose key equals the key "
-             "asked for, and colliding keys are both stored (generic shard/cache model). Correspondence with "
-             "colliding user hashers (full collisions, same-shard collisions). Memory tier only so far.",
-        ref="4/C17", tech="Coq proof + extracted-model correspondence",
-        note="disk-tier half (c17_disk) is not yet covered."),
+        text="Theorems: for an arbitrary hash function, a memory lookup returns only a record whose key equals the key "
+             "asked for, and colliding keys are both stored (generic shard/cache model). Disk tier (collision model: all keys "
+             "of one 64-bit hash, keeper probed with the full key, one index slot per hash, decoded key compared before a "
+             "disk hit is accepted): every lookup answered in any history of enqueue / delete / flusher steps / reclaim / "
+             "restart returns a version created for the key asked for, or nothing; both ways to get it wrong are refuted by "
+             "kernel-checked witnesses. Correspondence: memtrace and fetchtrace with colliding user hashers (full collisions, "
+             "same-shard collisions); the extracted collision model against the real store with every key colliding "
+             "(held flushers, deletes, restarts; every store-level load compared); hybrid oracle stream with a colliding hasher.",
+        ref="4/C17", tech="Coq proof + extracted-model correspondence (memory and disk tier)",
+        note="the in-flight table's key comparison is covered by the fetch model's correspondence with colliding hashers."),
     "C18": dict(
         text="Theorems: refs = number of live handles, records behind handles never change (append-only arena), "
              "is_outdated <-> a lookup would not return this record, pinned records have live handles (no leak), "
